@@ -7,7 +7,9 @@ LEVEL = "exploration"
 RULE = ("S-syn listings mixing direct branches (call/jmp/callq/jmpq/jcc with targets at min-1, min, max, max+1, inside, far "
         "outside, with different digit counts), indirect branches (*%rax, *0x8(%rip), *(%rax,%rbx,8)), push/mov of immediates "
         "and absolute memory operands that look like in-range addresses, operand-less instructions; ranges with min=max, "
-        "min<max, bounds spelled with/without 0x, upper/lower case, leading zeros. Each listing is run with and without the "
+        "min<max, bounds spelled with/without 0x, upper/lower case, leading zeros; 12 % of the listings have CRLF line ends (symbol-less "
+        "targets are then the last token before the line end); a binary stratum runs objects assembled from templates through the "
+        "binary route with ranges chosen around the printed targets. Each listing is run with and without the "
         "option (all_instructions_string); invariant on the decoded streams: number/order/addresses identical; direct "
         "call/jmp with min<=T<=max has operands exactly ['valid_addr']; callq/jmpq/jcc in range may be tagged (counted, not "
         "judged); every other instruction keeps its operands; without the option nothing is rewritten (stream equals the "
@@ -16,7 +18,7 @@ RULE = ("S-syn listings mixing direct branches (call/jmp/callq/jmpq/jcc with tar
         "{min-1,min,max,max+1}; distinct = (listing, range).")
 FLOOR = {"quick": 200, "thorough": 3000}
 ANCHOR_HINTS = ["match.py", "global_definitions", "consumer"]
-REQUIRED_EVENTS = ["stream_pairs_judged", "must_tag_seen", "must_not_tag_seen"]
+REQUIRED_EVENTS = ["stream_pairs_judged", "must_tag_seen", "must_not_tag_seen", "binary_inputs_judged", "crlf_listings_judged"]
 
 MUST = {"call", "jmp"}
 MAY = {"callq", "jmpq", "jne", "je", "jg", "jge", "jl", "jle", "jz", "jnz", "jb", "js", "ja", "jmpl"}
@@ -72,14 +74,21 @@ def gen(rng):
 DIRECT = re.compile(r"^[0-9a-f]+$")
 
 
-def judge(ctx, ws, insts, lo, hi, lo_s, hi_s, text=None):
+def judge(ctx, ws, insts, lo, hi, lo_s, hi_s, text=None, crlf=False, binary_b64=None):
     text = text or L.render(insts, ctx.rng)
-    lp = ws.write("l.s", text)
+    binary = binary_b64 is not None
+    if binary:
+        lp = ws.write("o.bin", __import__("base64").b64decode(binary_b64))
+        ctx.event("binary_inputs_judged")
+    else:
+        lp = ws.write("l.s", (text.replace("\n", "\r\n") if crlf else text).encode())
+        if crlf:
+            ctx.event("crlf_listings_judged")
     with_rule = real.dump_rule({"config": {"valid_addr_range": {"min": lo_s, "max": hi_s}}, "pattern": ["zzzzzz"]})
-    r_with = real.match(ws.write("w.yaml", with_rule), lp, ret="stream")
-    r_wo = real.match(ws.write("wo.yaml", real.dump_rule({"pattern": ["zzzzzz"]})), lp, ret="stream")
+    r_with = real.match(ws.write("w.yaml", with_rule), lp, ret="stream", binary=binary)
+    r_wo = real.match(ws.write("wo.yaml", real.dump_rule({"pattern": ["zzzzzz"]})), lp, ret="stream", binary=binary)
     ctx.ran(2)
-    case = {"listing": text, "min": lo_s, "max": hi_s}
+    case = {"listing": text, "min": lo_s, "max": hi_s, "crlf": crlf, "binary_b64": binary_b64}
     if r_wo[0] != "ok":
         ctx.inconc("parser raised without the option (left to C08)")
         return
@@ -97,9 +106,30 @@ def judge(ctx, ws, insts, lo, hi, lo_s, hi_s, text=None):
         return
     exp_call, exp_jmp = [], []
     boundary = False
-    for (ad, m, ops), (_, m2, ops2) in zip(a, b):
-        direct = len(ops) >= 1 and DIRECT.match(ops[0]) is not None
-        t = int(ops[0], 16) if direct else None
+    # which instruction is a direct branch, and where it goes, is read from the LISTING (the synthetic instruction list, or R-line's
+    # reading of the objdump text), not from the stream the code under test built without the option
+    if insts is not None:
+        truth = []
+        for si in insts:
+            try:
+                truth.append(si.fields())
+            except ValueError:
+                truth.append(None)          # operand shapes outside the normal-form table (indirect targets): never a direct branch
+    else:
+        from jv import refline
+        truth = [(ri.addr, ri.parsed.mnemonic, tuple(o if o is not None else "?" for o in ri.ops_norm) or ("",)) if not ri.parsed.prefixes else None
+                 for ri in refline.read_listing(text)[0]]
+    if len(truth) != len(a):
+        ctx.inconc("record count differs from the listing without the option (left to C08)")
+        return
+    for tr, (ad, m, ops), (_, m2, ops2) in zip(truth, a, b):
+        tops = tr[2] if tr is not None else ("?",)
+        if tr is not None and "?" not in tops and tuple(ops) != tuple(tops):
+            ctx.disagreement(case, f"WITHOUT the option the operands of {m} at {ad} are {list(ops)}, the listing has {list(tops)} (the run without the option "
+                                   f"follows one with the option in the same process)")
+            return
+        direct = len(tops) >= 1 and DIRECT.match(tops[0]) is not None
+        t = int(tops[0], 16) if direct else None
         inr = direct and lo <= t <= hi
         if m != m2:
             ctx.disagreement(case, f"mnemonic of {ad} changed by the option: {m} -> {m2}")
@@ -108,7 +138,7 @@ def judge(ctx, ws, insts, lo, hi, lo_s, hi_s, text=None):
             ctx.event("must_tag_seen")
             boundary = boundary or t in (lo, hi)
             if ops2 != ("valid_addr",):
-                ctx.disagreement(case, f"direct {m} at {ad} with target {ops[0]} inside [{lo_s},{hi_s}] is not tagged: operands {list(ops2)}")
+                ctx.disagreement(case, f"direct {m} at {ad} with target {tops[0]} inside [{lo_s},{hi_s}] is not tagged: operands {list(ops2)}")
                 return
             (exp_call if m == "call" else exp_jmp).append(ad)
         elif m in MAY and inr:
@@ -128,7 +158,7 @@ def judge(ctx, ws, insts, lo, hi, lo_s, hi_s, text=None):
     for name, want in (("call", exp_call), ("jmp", exp_jmp)):
         rt = real.dump_rule({"config": {"valid_addr_range": {"min": lo_s, "max": hi_s}, "mnemonics-full-match": True, "operands-full-match": True},
                              "pattern": [{name: ["valid_addr"]}]})
-        r = real.match(ws.write("r.yaml", rt), lp, ret="list", search="all", only_addr=True)
+        r = real.match(ws.write("r.yaml", rt), lp, ret="list", search="all", only_addr=True, binary=binary)
         ctx.ran()
         if r[0] != "ok" or list(r[1]) != want:
             ctx.disagreement(case, f"rule {name}: [valid_addr] reports {str(r[1])[:200]}, expected the in-range direct {name}s {want}")
@@ -138,15 +168,50 @@ def judge(ctx, ws, insts, lo, hi, lo_s, hi_s, text=None):
         ctx.sample("boundary", {"min": lo_s, "max": hi_s, "tagged_calls": exp_call[:4], "tagged_jmps": exp_jmp[:4], "stream_with_option": r_with[1][:300]})
 
 
+def binary_stratum(ctx, ws, n):
+    """The same invariants on the BINARY route: an object assembled from templates with direct and indirect branches; the range is
+    chosen around the targets objdump prints. With and without the option the object yields the same instructions."""
+    from jv import asmgen
+    import base64
+    rng = ctx.rng
+    for _ in range(n):
+        bits = rng.choice([64, 64, 32])
+        lines = []
+        for _ in range(rng.choice([20, 60, 150])):
+            r = rng.random()
+            if r < 0.35:
+                lines.append(rng.choice(["call", "jmp", "call", "jmp", "je", "jne"]) + f" L{rng.randrange(8)}")
+            elif r < 0.45:
+                lines.append(rng.choice(["call", "jmp"]) + " *" + rng.choice(asmgen.R64 if bits == 64 else asmgen.R32[:8]))
+            elif r < 0.55:
+                lines.append("push $0x" + format(rng.choice([0, 5, 0x20, 0x60, 0x100]), "x"))
+            else:
+                lines.append(asmgen.template(rng, bits))
+        r = asmgen.assemble(ws, lines, bits)
+        if r is None:
+            ctx.inconc("as refused a template batch")
+            continue
+        targets = sorted({int(m.group(1), 16) for m in re.finditer(r"\t(?:call|jmp)\s+([0-9a-f]+) <", r[1])})
+        if not targets:
+            continue
+        lo = rng.choice(targets)
+        hi = rng.choice([t for t in targets if t >= lo])
+        if rng.random() < 0.3:
+            lo, hi = max(0, lo - 1), hi + 1
+        judge(ctx, ws, None, lo, hi, spell(rng, lo), spell(rng, hi), text=r[1], binary_b64=base64.b64encode(open(r[0], "rb").read()).decode())
+
+
 def run_shard(ctx):
     ws = real.Workspace()
     n = ctx.share(3000, 200000)
     for _ in range(n):
         insts, lo, hi = gen(ctx.rng)
-        judge(ctx, ws, insts, lo, hi, spell(ctx.rng, lo), spell(ctx.rng, hi))
+        judge(ctx, ws, insts, lo, hi, spell(ctx.rng, lo), spell(ctx.rng, hi), crlf=ctx.rng.random() < 0.12)
+    binary_stratum(ctx, ws, ctx.share(48, 3000))
 
 
 def replay(ctx, case):
     def val(s):
         return int(s[2:] if s.lower().startswith("0x") else s, 16)
-    judge(ctx, real.Workspace(), None, val(case["min"]), val(case["max"]), case["min"], case["max"], text=case["listing"])
+    judge(ctx, real.Workspace(), None, val(case["min"]), val(case["max"]), case["min"], case["max"], text=case["listing"],
+          crlf=bool(case.get("crlf")), binary_b64=case.get("binary_b64"))
